@@ -4,6 +4,7 @@ import (
 	"fmt"
 	"math/rand"
 	"time"
+	"verif/internal/rconn"
 
 	res "github.com/jirenius/go-res"
 )
@@ -74,6 +75,9 @@ func Stress(seed int64, prog Program) *RunResult {
 			out.Violations = append(out.Violations, sc.viol...)
 			return out
 		}
+		if prog.Overtake {
+			continue // "a stopped service can be served again": the state is stopped once Shutdown has returned
+		}
 		select {
 		case <-sc.serveDone:
 		case <-time.After(3 * time.Second):
@@ -103,4 +107,80 @@ func waitStartedCycle(tr *Tracer, n int, d time.Duration) bool {
 		time.Sleep(100 * time.Microsecond)
 	}
 	return false
+}
+
+// RestartLoop serves and shuts down one Service value n times in a row, each restart following the
+// return of Shutdown at once (the previous Serve call may not have returned yet). In every life a
+// callback is submitted and must run. A panic of the library kills the process (seen by the parent).
+func RestartLoop(seed int64, prog Program, n int) *RunResult {
+	out := &RunResult{}
+	rng := rand.New(rand.NewSource(seed))
+	res.VerifHook = nil
+	s := res.NewService("test")
+	s.SetLogger(nil)
+	s.SetWorkerCount(prog.Workers)
+	s.Handle("r.$id", res.GetResource(func(r res.GetRequest) { r.NotFound() }))
+	viol := func(kind, text string) {
+		out.Violations = append(out.Violations, Violation{Property: "C03", Kind: kind, Text: text, Sig: map[string]string{"kind": kind, "engine": "sched"}})
+	}
+	var serves []chan error
+	for i := 0; i < n && len(out.Violations) == 0; i++ {
+		conn := rconn.New(nil)
+		served := make(chan struct{})
+		s.SetOnServe(func(*res.Service) { close(served) })
+		done := make(chan error, 1)
+		serves = append(serves, done)
+		go func() { done <- s.Serve(conn) }()
+		select {
+		case <-served:
+		case err := <-done:
+			viol("restart-refused", fmt.Sprintf("Serve number %d, called after Shutdown had returned, ended at once: %v", i+1, err))
+			continue
+		case <-time.After(3 * time.Second):
+			viol("serve-not-started", fmt.Sprintf("Serve number %d did not start within 3s", i+1))
+			continue
+		}
+		ran := make(chan struct{})
+		if rng.Intn(2) == 0 {
+			if err := s.With("test.r.a", func(res.Resource) { close(ran) }); err != nil {
+				viol("with-error", fmt.Sprintf("With in life %d: %v", i+1, err))
+			} else {
+				select {
+				case <-ran:
+				case <-time.After(3 * time.Second):
+					viol("restart-lost", fmt.Sprintf("a callback accepted in life %d of the service never ran", i+1))
+				}
+			}
+			out.Callbacks++
+		}
+		if s.Conn() == nil {
+			viol("restart-no-conn", fmt.Sprintf("the started service has no connection in life %d", i+1))
+		}
+		sd := make(chan error, 1)
+		go func() { sd <- s.Shutdown() }()
+		select {
+		case err := <-sd:
+			if err != nil {
+				viol("shutdown-error", fmt.Sprintf("Shutdown in life %d: %v", i+1, err))
+			}
+		case <-time.After(3 * time.Second):
+			viol(hangKind(goroutineDump()), fmt.Sprintf("Shutdown did not return within 3s in life %d of an immediate-restart loop", i+1))
+			out.Note = trimDump(goroutineDump())
+			return out
+		}
+		if conn.CloseCount() != 1 {
+			viol("close-count", fmt.Sprintf("connection of life %d closed %d times", i+1, conn.CloseCount()))
+		}
+		out.Steps++
+	}
+	deadline := time.After(5 * time.Second)
+	for i, d := range serves {
+		select {
+		case <-d:
+		case <-deadline:
+			viol("serve-hang", fmt.Sprintf("Serve call number %d had not returned 5s after the last Shutdown", i+1))
+			return out
+		}
+	}
+	return out
 }
